@@ -192,7 +192,8 @@ impl BuildSystem {
         let mut analyzer = CommandAnalyzer::new();
         let commands = analyzer.analyze_project(&config.project_path)?;
 
-        if commands.is_empty() {
+        // A project may emit events without defining commands: its listeners are still generated
+        if commands.is_empty() && analyzer.get_discovered_events().is_empty() {
             self.logger
                 .info("No Tauri commands found. Skipping generation.");
             return Ok(vec![]);
